@@ -43,9 +43,9 @@ def h_kind(k: int, tail: int, amode: int, black: bool, level: int) -> bool:
     return reach(L.untraced(L.run_kind, k, tail, amode, black, level))
 
 
-def h_pair(k1: int, k2: int, amode: int, level: int) -> bool:
+def h_pair(part: int, k1: int, k2: int, amode: int, level: int) -> bool:
     """
-    pre: 0 <= k1 < 40 and 0 <= k2 < 40 and 0 <= amode <= 1 and 0 <= level <= 2
+    pre: 0 <= part < 10 and 4 * part <= k1 < 4 * part + 4 and 0 <= k2 < 40 and 0 <= amode <= 1 and 0 <= level <= 2
     post: _
     """
     # two statement kinds in one test case (up to 7 statements); the second reuses the first one's variables
@@ -198,5 +198,5 @@ def obligations(tier: str):
         Chx("file", h_file, timeout=T),
     ]
     if not quick:
-        obs.append(Chx("pair", h_pair, timeout=T, split={"k1": list(range(40))}))
+        obs.append(Chx("pair", h_pair, timeout=T, split={"part": list(range(10))}))
     return obs
